@@ -1,6 +1,7 @@
 import vp
-def J(name, fmt, sympos=None, width=4, timeout=240, steps=30000000):
+def J(name, fmt, sympos=None, width=4, timeout=240, steps=30000000, extra=None):
     d = {"FORMAT": fmt}
+    d.update(extra or {})
     if sympos is not None: d["SYMPOS"] = sympos; d["SYMWIDTH"] = width
     return vp.Job("robust_util." + name, "robust_util.cpp", d, max_paths=200000, timeout=timeout, min_completed=1, max_steps=steps, allow_partial=True, max_violations=30)
 def jobs(tier):
@@ -10,6 +11,10 @@ def jobs(tier):
           J("wdc", 4), J("uf2", 5), J("bin", 6),
           # ELF32 header: e_shoff @32 (4), e_shentsize @46, e_shnum @48, e_shstrndx @50 (2 bytes each)
           J("elf.shoff", 7, "32", 4), J("elf.shentsize", 7, "46", 2), J("elf.shnum", 7, "48", 2), J("elf.shstrndx", 7, "50", 2), J("elf.ident", 7, "4,16", 2)]
+    # offset/size of each section header symbolic, in an ELF32 (msp430) and an ELF64 (arm64) skeleton
+    for sec in (1, 2, 3, 4):
+        js.append(J("elf32.shdr%d" % sec, 7, extra={"SHDR_SECTION": sec}))
+        js.append(J("elf64.shdr%d" % sec, 7, extra={"SHDR_SECTION": sec, "ELFCPU": "CPU_TYPE_ARM64"}))
     return js
 def main(tier):
     return vp.check_property("C17", tier, jobs(tier),
